@@ -124,7 +124,7 @@ func registerVerifExternals(sh *Shared) {
 	reg(mainPath+".scratchDone", func(fr *frame, args []value) value { return nil })
 	// symClock(true): time.Now/Since/Until return symbolic, non-decreasing instants
 	reg(mainPath+".symClock", func(fr *frame, args []value) value {
-		fr.i.symClock = args[0].(bool) && fr.i.ex.concrete == nil
+		fr.i.symClock = args[0].(bool)
 		return nil
 	})
 	reg(mainPath+".thorough", func(fr *frame, args []value) value { return sh.Thorough })
